@@ -20,6 +20,11 @@ def run(repo, tier) -> Result:
     res.assumptions = ["timestamps sorted (collapse output strictly increasing, base stream non-decreasing)"]
     check_trim("C15", res, repo)
     check_tasks_order("C15", res, repo, need=(("collapse", "trim"),))
+    # "indicators address candles relative to the (trimmed) list and resume from the last reading present"
+    from ..driver import check_calculate_driver, check_resume
+
+    check_calculate_driver("C15", res, repo, want=("R-SKIP", "R-SWEEP"))
+    check_resume("C15", res, repo.method("hexital.core.indicator", "Indicator", "_find_calc_index"), "self.candles", "membership")
     cas = shipped_analyses(repo, res)
     check_taint("C15", res, repo, cas, branches_too=False)
     res.rule("R-TRIM", floor=3)
